@@ -57,7 +57,7 @@ def jobs(tier, seed):
         for a in range(0, len(pats), chunk):
             J.append(dict(name="unpack:%dlines:%d-%d" % (k, a, min(len(pats), a + chunk) - 1), kind="unpack", k=k, pats=pats[a : a + chunk], timeout=1500, cost=10 * k * chunk))
     J.append(dict(name="unpack:longline", kind="unpack", k=2, pats=[(0, ["contig"]), (0, ["gap1"])], lens=[250, 2], timeout=900, cost=200))
-    for shape in ("one-main", "one-loader", "one-peripheral-sm4200", "one-ble", "two-sections", "crc-then-no-crc", "ignored-prepare", "no-marker", "gap-in-blob", "unknown-tagtype", "unmapped-known-tagtype"):
+    for shape in ("one-main", "one-loader", "one-peripheral-sm4200", "one-ble", "ble-filter-2", "ble-filter-3", "ble-plain-filter", "two-sections", "crc-then-no-crc", "ignored-prepare", "no-marker", "gap-in-blob", "unknown-tagtype", "unmapped-known-tagtype"):
         J.append(dict(name="import:%s" % shape, kind="import", shape=shape, timeout=900, cost=100))
     for n in (1, 2, 3):
         J.append(dict(name="pfid2:%dentries" % n, kind="pfid2", n=n, timeout=900, cost=50 * n))
@@ -205,10 +205,15 @@ def run_job(job):
                 expect = [dict(type=b"\x01", fmt=b"\x00", blob=b"".join(ps), reboot=True, intf=b"\x05", crc=(0xBEEF).to_bytes(4, "big"))]
                 if shape == "gap-in-blob":
                     reject = Bf3FileFormatError
-            elif shape == "one-ble":
+            elif shape in ("one-ble", "ble-filter-2", "ble-filter-3", "ble-plain-filter"):
                 ls, ps = section(0x39, 3, tag="a")
-                objs = marker + [("SELECT", {"FILTER": "01 01 00 B6"}), ("load", ls), ("REBOOT", {})]
-                expect = [dict(type=b"\x01", fmt=b"\x00", blob=b"".join(ps), reboot=True, pfid2=bytes.fromhex("010100B6"))]
+                flt = {"one-ble": "01 01 00 B6", "ble-filter-2": "01 02 80 B6 00 BE", "ble-filter-3": "01 02 80 BE 00 B6", "ble-plain-filter": "01 01 00 07"}[shape]
+                objs = marker + [("SELECT", {"FILTER": flt}), ("load", ls), ("REBOOT", {})]
+                # documented special cases: these three filters denote the BGM12X; any other single-entry
+                # filter gives its own hardware id
+                special = shape != "ble-plain-filter"
+                hw = bf.HWCID_MAP["BGM12X"].to_bytes(2, "big") if special else bytes.fromhex("0007")
+                expect = [dict(type=b"\x01", fmt=b"\x00", blob=b"".join(ps), reboot=True, pfid2=bytes.fromhex(flt.replace(" ", "")), hwcid=hw)]
             elif shape == "two-sections":
                 l1, p1 = section(0x3D, 2, tag="a")
                 l2, p2 = section(0x84, 1, tag="b")
@@ -390,6 +395,16 @@ def replay(job):
             txt += line(0x10, 0, b"\xAA") + end + "#>REBOOT\n"
         elif shape == "no-marker":
             txt = line(0x84, 0, b"\xAA") + end + "#>REBOOT\n"
+        elif shape in ("one-ble", "ble-filter-2", "ble-filter-3", "ble-plain-filter"):
+            flt = {"one-ble": "01 01 00 B6", "ble-filter-2": "01 02 80 B6 00 BE", "ble-filter-3": "01 02 80 BE 00 B6", "ble-plain-filter": "01 01 00 07"}[shape]
+            txt += "#>SELECT FILTER=" + flt + "\n" + line(0x39, 0, b"\xAA\xBB") + end + "#>REBOOT\n"
+            want = bf.HWCID_MAP["BGM12X"].to_bytes(2, "big") if shape != "ble-plain-filter" else bytes.fromhex("0007")
+            try:
+                f = bf.Bf3File.bf2_import(io.StringIO(txt))
+            except Exception as e:
+                return dict(reproduced=True, signature="C13:import:" + shape, detail="BLE section with filter %s: %s: %s" % (flt, type(e).__name__, e))
+            got = f.components[0].description.get(0xC4)
+            return dict(reproduced=got != want, signature="C13:import:" + shape, detail="BLE section with filter %s imported with hardware id %s, documented %s" % (flt, got.hex() if got else None, want.hex()))
         elif shape == "crc-then-no-crc":
             txt += line(0x35, 0, b"\xAA\xBB") + end + "##CRC: 0x0000BEEF\n#>REBOOT\n" + line(0x3D, 0, b"\xCC") + end + "#>REBOOT\n"
             try:
